@@ -2,6 +2,8 @@ package env
 
 import (
 	"encoding/base64"
+	"fmt"
+	appProvider "github.com/cosmos/interchain-security/v7/app/provider"
 	"time"
 
 	"cosmossdk.io/math"
@@ -50,35 +52,38 @@ func MsgCreateValidator(v Val, key ConsKey, amt int64) sdk.Msg {
 // slash (downtime fraction), jail, set jailed-until. It is an environment event of the provider
 // chain (CometBFT vote infos are not modelled).
 func (s *State) JailDowntime(p *Provider, v Val) error {
-	if s.C.Rec != nil {
-		s.C.Rec.Tainted = "environment event (downtime jailing by the slashing module)"
+	err, pan := s.Raw("jail-downtime", func(app ABCIApp, ctx sdk.Context) error {
+		pa := app.(*appProvider.App)
+		sk := pa.SlashingKeeper
+		stk := pa.StakingKeeper
+		val, err := stk.GetValidatorByConsAddr(ctx, v.ConsAddr())
+		if err != nil {
+			return err
+		}
+		if val.IsJailed() || val.IsUnbonded() {
+			return errNoop
+		}
+		frac, err := sk.SlashFractionDowntime(ctx)
+		if err != nil {
+			return err
+		}
+		power := val.ConsensusPower(sdk.DefaultPowerReduction)
+		if err := sk.Slash(ctx, v.ConsAddr(), frac, power, ctx.BlockHeight()-1); err != nil {
+			return err
+		}
+		if err := sk.Jail(ctx, v.ConsAddr()); err != nil {
+			return err
+		}
+		d, err := sk.DowntimeJailDuration(ctx)
+		if err != nil {
+			return err
+		}
+		return sk.JailUntil(ctx, v.ConsAddr(), ctx.BlockTime().Add(d))
+	})
+	if pan != "" {
+		return fmt.Errorf("panic: %s", pan)
 	}
-	ctx := s.Ctx
-	sk := p.PApp.SlashingKeeper
-	stk := p.PApp.StakingKeeper
-	val, err := stk.GetValidatorByConsAddr(ctx, v.ConsAddr())
-	if err != nil {
-		return err
-	}
-	if val.IsJailed() || val.IsUnbonded() {
-		return errNoop
-	}
-	frac, err := sk.SlashFractionDowntime(ctx)
-	if err != nil {
-		return err
-	}
-	power := val.ConsensusPower(sdk.DefaultPowerReduction)
-	if err := sk.Slash(ctx, v.ConsAddr(), frac, power, ctx.BlockHeight()-1); err != nil {
-		return err
-	}
-	if err := sk.Jail(ctx, v.ConsAddr()); err != nil {
-		return err
-	}
-	d, err := sk.DowntimeJailDuration(ctx)
-	if err != nil {
-		return err
-	}
-	return sk.JailUntil(ctx, v.ConsAddr(), ctx.BlockTime().Add(d))
+	return err
 }
 
 type noopErr struct{}
